@@ -650,6 +650,27 @@ func (e *Env) call(n *ECall) SV {
 			return SV{fmt.Sprintf("(and (not (= %s 0)) (select (%s.dom %s) %s))", mv.T, cell, cur, kv.T), tBool}
 		}
 		return SV{fmt.Sprintf("(select (%s.val %s) %s)", cell, cur, kv.T), goT(mt.Elem())}
+	case "fieldref":
+		// fieldref(p, "f"): the identity of the field f of the struct p points to (for opaque fields such as mutexes)
+		pv := e.ev(n.Args[0])
+		fname, ok := n.Args[1].(*EStr)
+		if !ok || pv.Ty == nil || pv.Ty.Go == nil {
+			efail("fieldref(p, \"field\")")
+		}
+		pt, ok := pv.Ty.Go.Underlying().(*types.Pointer)
+		if !ok {
+			efail("fieldref of non-pointer")
+		}
+		si := g.reg.structs[g.reg.SortOf(pt.Elem())]
+		if si == nil {
+			efail("fieldref into opaque struct")
+		}
+		for i, fn := range si.FNames {
+			if fn == fname.V {
+				return SV{fmt.Sprintf("(- (- (* %s 64)) %d)", pv.T, i+1), tInt}
+			}
+		}
+		efail("no field %s", fname.V)
 	case "nextRef":
 		// nextRef(): allocation watermark; references >= nextRef() are not yet allocated
 		return SV{e.ft.stateGet(e.st, "$next", "Int"), tInt}
